@@ -136,6 +136,10 @@ def run(ctx):
               vs.loc(), detail="OMIT/BACKWARD/FORWARD")
     ctx.floor("C19/TYPES", 16)
     ctx.floor("C19/ORDER", 16)
+    # the part codecs (weekday, month incl. leap months of two digits, frequency in any case)
+    from .. import codecmodel
+    codecmodel.report(ctx, "C19/PART-CODECS", codecmodel.explore_scalars, codecmodel.SCALAR_LAWS,
+                      m.cls("prop.vMonth").loc(), 30)
     # ---- RECUR-MODEL: the codec interpreted on rules of every part (last: a table
     # violation found above is reported even when the interpretation gives up) ----
     from .. import recurmodel
